@@ -307,13 +307,21 @@ def eval_case(task):
         if err > 1e-7:
             problems.append(f"prepared state differs from the independent rank-{want} truncation by {err:.2e}")
     info = {"rank": want, "eff": eff, "fid": fid, "truncated": want < eff}
-    if problems and all("differs from" in p for p in problems):
-        # state is off although rank, norm and fidelity are right: is a K4 encoder inaccurate on its own matrix?
+    if problems and all("differs from" in p for p in problems) and not task.get("_no_a2"):
+        # state is off although rank, norm and fidelity are right: the known precision loss of qiskit's A.2 pass inside the
+        # encoders (K-C07-1)?  Only if (a) an encoder called by _encode does not reproduce its own matrix AND (b) the very
+        # same case has no problem at all once qclib.unitary._apply_a2 is replaced by the identity (harness-side patch);
+        # a defect of lowrank.py / entanglement.py / the encoders themselves survives (b) and stays an ordinary failure.
         try:
+            from unittest import mock
+            import qclib.unitary as qu
             aud = audit_encoders(v, n, opts)
             worst = max(aud, key=lambda a: a[3]) if aud else None
             if worst and worst[3] > 1e-8:
-                info["encoder_blame"] = {"kind": worst[0], "rows": worst[1], "cols": worst[2], "err": worst[3]}
+                with mock.patch.object(qu, "_apply_a2", lambda circuit: circuit):
+                    _, p2, _ = eval_case(dict(task, _no_a2=True))
+                if p2 == []:
+                    info["encoder_blame"] = {"kind": worst[0], "rows": worst[1], "cols": worst[2], "err": worst[3]}
         except Exception:
             pass
     return task["key"], problems, info
@@ -385,7 +393,7 @@ def run_tasks(ctx, tasks, unsorted_probe=False):
                 report_finding(ctx, f"lowrank.encoder-precision:{blame['kind']}",
                                f"{key}: " + "; ".join(problems) + f" -- root cause: the encoder {blame['kind']} called by _encode "
                                f"reproduces its own {blame['rows']}x{blame['cols']} matrix only to {blame['err']:.2e} "
-                               "(rank, norm and fidelity are right)", rep)
+                               "(rank, norm and fidelity are right; no problem with qclib.unitary._apply_a2 bypassed)", rep)
             else:
                 ctx.fail(key, "; ".join(problems), rep)
         else:
